@@ -18,13 +18,13 @@ from .fitworld import frac
 from .session import SessionWorld, conc_sel, FOUR
 
 
-def expected_models(b, names):
+def expected_models(b, names, nan_name=None):
     out = {}
     for m in b['models']:
         nm = names[m['model'] - 1]
         chi = float(frac(m['chi'])) if not m['big'] else m['big'] * 1e30
         out[nm] = {'chi': chi, 'av': float(frac(m['u'])) / 4.0, 'sc': float(frac(m['v'])) / 40.0,
-                   'par': [float(x) for x in m['par']], 'extra': 1000.0 + m['model'], 'zeta': 1000.0 + m['model'], 'alpha': 7.0 * (m['model'] - 1)}
+                   'par': [float(x) for x in m['par']], 'extra': 1000.0 + m['model'], 'zeta': (float('nan') if nm == nan_name else 1000.0 + m['model']), 'alpha': 7.0 * (m['model'] - 1)}
     return out
 
 
@@ -102,7 +102,9 @@ def replay_chunk(items, hdr, root, seed):
             worlds.append((w, perm, npar))
         for bi, b in items:
             w, perm, npar = worlds[bi % 2]
-            exp = expected_models(b, names)
+            # one model carries an UNDEFINED additional value: in a quarter of the cases the best-fitting one
+            nan_name = names[b['ranking'][0] - 1] if (bi % 4 == 0 and b.get('ranking')) else names[-1]
+            exp = expected_models(b, names, nan_name)
             unit = hdr['unit']
             csel = conc_sel(b['sel'], unit)
             src = fw.make_source(hdr['pool'][b['sid'] - 1], name='src%d_line0' % b['sid'])
@@ -117,7 +119,8 @@ def replay_chunk(items, hdr, root, seed):
                 inp = p
             else:
                 inp = info if form == 'obj' else [info]
-            additional = {} if bi % 2 else {'zeta': {n_: 1000.0 + (i + 1) for i, n_ in enumerate(names)}, 'alpha': {n_: 7.0 * i for i, n_ in enumerate(names)}}       # one model has the value 0 exactly
+            additional = {} if bi % 2 else {'zeta': {n_: (float('nan') if n_ == nan_name else 1000.0 + (i + 1)) for i, n_ in enumerate(names)},
+                                             'alpha': {n_: 7.0 * i for i, n_ in enumerate(names)}}       # one model has the value 0 exactly
             desc = {'behaviour': b, 'table_row_order': [names[i] for i in perm], 'parameter_columns': npar, 'form': form, 'selector': csel, 'additional': bool(additional)}
             bad = None
             try:
@@ -180,7 +183,9 @@ def replay_chunk(items, hdr, root, seed):
                                 mn, best, mx = vals[3 * qi:3 * qi + 3]
                                 if qn == 'chi' or not b['tie']:
                                     xs = [get(exp[k]) for k in kept]
-                                    if not close3(mn, min(xs)) or not close3(mx, max(xs)):
+                                    if any(np.isnan(x_) for x_ in xs):
+                                        pass          # the minimum / maximum of a set holding an undefined value is not specified
+                                    elif not close3(mn, min(xs)) or not close3(mx, max(xs)):
                                         bad = 'write_parameter_ranges %s: min/max %r/%r, over the %d selected fits it is %r/%r' % (qn, mn, mx, n, min(xs), max(xs))
                                 if not bad and (qn == 'chi' or not tie_top):
                                     if not close3(best, get(exp[kept[0]])):
